@@ -6,6 +6,7 @@ import (
 	"encoding/json"
 	"errors"
 	"fmt"
+	"io"
 	"reflect"
 	"strconv"
 	"strings"
@@ -115,6 +116,102 @@ func judge(path string, lit []byte, err error, s string, es *escSet, allowUTF8 b
 	return ""
 }
 
+func hasControl(s string) bool {
+	for i := 0; i < len(s); i++ {
+		if s[i] < 0x20 {
+			return true
+		}
+	}
+	return false
+}
+
+// chunkReader is a plain io.Reader delivering at most n bytes per call.
+type chunkReader struct {
+	b []byte
+	n int
+}
+
+func (c *chunkReader) Read(p []byte) (int, error) {
+	if len(c.b) == 0 {
+		return 0, io.EOF
+	}
+	k := min(len(c.b), len(p))
+	if c.n > 0 {
+		k = min(k, c.n)
+	}
+	copy(p, c.b[:k])
+	c.b = c.b[k:]
+	return k, nil
+}
+
+// longLiterals: string literals longer than the decoder's buffers, with an escape or ill-formed byte
+// at the start / middle / end, decoded through streaming readers.
+func longLiterals(r *evid.Run) {
+	maxL := 700
+	if r.Tier == "thorough" {
+		maxL = 9000
+	}
+	var units []int
+	for L := 1; L <= maxL; L++ {
+		if L > 700 && L%64 > 8 && L%64 < 56 {
+			continue
+		}
+		units = append(units, L)
+	}
+	enum.Parallel(r, len(units), func(w *enum.Worker) func(int) {
+		var cur Case
+		w.Describe = func() any { return cur }
+		var n int64
+		w.Done = func() { r.Evaluations.Add(n); r.Nontrivial.Add(n) }
+		return func(u int) {
+			L := units[u]
+			body := strings.Repeat("x", L)
+			for _, pos := range []int{0, L / 2, L - 1} {
+				for _, esc := range []string{`\n`, `\u00e9`, "\xff", `\ud83d\ude00`} {
+					lit := []byte(`"` + body[:pos] + esc + body[pos:] + `"`)
+					allow := esc == "\xff"
+					want, _ := refjson.Unquote(lit, true)
+					for _, chunk := range []int{0, 7, 64} {
+						for _, wrap := range []string{"", "[", `{"k":`} {
+							doc := append([]byte(wrap), lit...)
+							dec := jsontext.NewDecoder(&chunkReader{b: doc, n: chunk}, jsontext.AllowInvalidUTF8(allow))
+							var tok jsontext.Token
+							var err error
+							for range map[string]int{"": 1, "[": 2, `{"k":`: 3}[wrap] {
+								tok, err = dec.ReadToken()
+							}
+							n++
+							cur = Case{Kind: "literal", Bytes: doc}
+							if err != nil || tok.Kind() != '"' || tok.String() != want {
+								got := ""
+								if err == nil {
+									got = tok.String()
+								}
+								report(r, cur, fmt.Sprintf("streamed ReadToken (chunk %d) of a %d-byte literal: got %q err=%v, want %q", chunk, len(lit), trunc(got), err, trunc(want)))
+							}
+							var s string
+							if wrap == "" {
+								err = jsonv2.UnmarshalRead(&chunkReader{b: doc, n: chunk}, &s, jsontext.AllowInvalidUTF8(allow))
+								if err != nil || s != want {
+									report(r, cur, fmt.Sprintf("UnmarshalRead (chunk %d) of a %d-byte literal: got %q err=%v, want %q", chunk, len(lit), trunc(s), err, trunc(want)))
+								}
+							}
+						}
+					}
+				}
+			}
+		}
+	})
+	r.Bound("long literals: lengths 1..%d with an escape / ill-formed byte / surrogate pair at start, middle, end, read by ReadToken and UnmarshalRead through readers delivering all / 7 / 64 bytes per call, bare and inside an array / object", maxL)
+}
+
+func trunc(s string) string {
+	if len(s) > 60 {
+		return s[:30] + "..." + s[len(s)-30:]
+	}
+	return s
+}
+
 // nameOf extracts the (single) member name literal from `{<lit>:1}`.
 func nameOf(obj []byte) []byte {
 	res := refjson.Parse(obj, refjson.Opts{AllowInvalidUTF8: true, AllowDupNames: true})
@@ -136,12 +233,12 @@ func fieldType(s string) reflect.Type {
 }
 
 type checker struct {
-	enc   *jsontext.Encoder
-	buf   bytes.Buffer
-	dec   *jsontext.Decoder
-	rd    bytes.Reader
-	cur   Case
-	paths map[string]int64
+	enc    *jsontext.Encoder
+	buf    bytes.Buffer
+	dec    *jsontext.Decoder
+	rd     bytes.Reader
+	cur    Case
+	paths  map[string]int64
 	ftypes map[string]reflect.Type
 }
 
@@ -207,6 +304,52 @@ func (c *checker) goString(s string, fields bool) (msg string) {
 			}
 			c.paths["token/marshal/mapkey/text x "+es.name]++
 			if !wf {
+				// raw literal holding the ill-formed bytes themselves, passed through with AllowInvalidUTF8
+				if allow && !strings.ContainsAny(s, "\"\\") && !hasControl(s) {
+					spelled := []byte(`"` + s + `"`)
+					for _, preserve := range []bool{false, true} {
+						o2 := opts
+						if preserve {
+							o2 = append(append([]jsontext.Options(nil), opts...), jsontext.PreserveRawStrings(true))
+						}
+						chk := func(path string, out []byte, err error) string {
+							if err != nil {
+								return fmt.Sprintf("%s: unexpected error %v", path, err)
+							}
+							got, ok := refjson.Unquote(out, true)
+							if !ok || got != refjson.Sanitize(s) {
+								return fmt.Sprintf("%s(preserve=%v): output %q does not decode to %q", path, preserve, out, refjson.Sanitize(s))
+							}
+							if why := hasRaw(out, es.html, es.js); why != "" {
+								return fmt.Sprintf("%s(preserve=%v): output %q contains %s under %s", path, preserve, out, why, es.name)
+							}
+							if preserve && !es.html && !es.js && !bytes.Equal(out, spelled) {
+								return fmt.Sprintf("%s(PreserveRawStrings): bytes changed %q -> %q", path, spelled, out)
+							}
+							return ""
+						}
+						v := jsontext.Value(append([]byte(nil), spelled...))
+						err := v.Format(o2...)
+						if m := chk("Value.Format", v, err); m != "" {
+							return m
+						}
+						b, err := jsontext.AppendFormat(nil, spelled, o2...)
+						if m := chk("AppendFormat", b, err); m != "" {
+							return m
+						}
+						c.buf.Reset()
+						c.enc.Reset(&c.buf, o2...)
+						err = c.enc.WriteValue(spelled)
+						if m := chk("WriteValue", bytes.TrimSuffix(c.buf.Bytes(), []byte("\n")), err); m != "" {
+							return m
+						}
+						b, err = jsonv2.Marshal(rawM{spelled}, jopts(o2)...)
+						if m := chk("Marshal(MarshalJSON)", b, err); m != "" {
+							return m
+						}
+					}
+					c.paths["ill-formed raw literal paths x "+es.name]++
+				}
 				continue
 			}
 			// raw literal paths, two spellings of the same string: minimal and all-\u
@@ -492,4 +635,5 @@ func Run(r *evid.Run) {
 		}
 	})
 	r.Sample(Case{Kind: "literal", Text: `"\ud800\udc00"`})
+	longLiterals(r)
 }
